@@ -1254,6 +1254,7 @@ def run_xlsb_files(ctx, n, argc):
             bad_lines.append(("xbm%d" % k, "xbm%d\topen\txlsb\t%s\tnames" % (k, bpath),
                               "xbm%d\tfenv\txlsb\t%s\t-\t%s" % (k, names_arg(bundle), _recs_arg(btail))))
     impl = ctx.run_impl(impl_lines + [b[1] for b in bad_lines])
+    option_free(ctx, impl_lines, impl)
     mod2 = ctx.run_model(model_lines + [b[2] for b in bad_lines])
     for lid, (line, en, es, known, ext, known_names, charts) in meta.items():
         env = mod2.get(lid + "_e", "")
@@ -2106,6 +2107,7 @@ def run_xlsb_shared_files(ctx, n, argc):
             bad.append(("bsm%d" % k, "bsm%d\topen\txlsb\t%s\tformula %s" % (k, bpath, hx(bundle[0])),
                         "bsm%d\tfsheet\txlsb\t%s\t%s" % (k, "\t".join(ea), _recs_arg(mt + ([(0x0092, b""), (0x0082, b"")] if ended else [])))))
     impl = ctx.run_impl(impl_lines + [b[1] for b in bad])
+    option_free(ctx, impl_lines, impl)
     mod2 = ctx.run_model(model_lines + [b[2] for b in bad])
     for lid, (line, wants) in meta.items():
         preds = [mod2.get("%s_m%d" % (lid, si), "(missing)") for si in range(len(wants))]
@@ -2278,6 +2280,20 @@ def option_free(ctx, impl_lines, impl, limit=60):
     for l in sub:
         f = l.split("\t")
         hl.append("\t".join([f[0] + "_h", f[1], f[2], f[3], "hdr %d;" % (2 + len(hl) % 5) + f[4]]))
+    # xlsb: the cells reader is a public streaming API; next_formula reads one record ahead behind a
+    # PtgExp cell — handing the reader over to next_cell afterwards must lose no record
+    ml = []
+    for l in sub:
+        f = l.split("\t")
+        if f[2] == "xlsb":
+            calls = [c.replace("formula ", "cellsmix ", 1) for c in f[4].split(";") if c.startswith("formula ")]
+            ml.append("\t".join([f[0] + "_m", f[1], f[2], f[3], ";".join(calls)]))
+    for lid, a in ctx.run_impl(ml).items():
+        ctx.count("xlsb_cells_reader_mixed_calls")
+        if "MIXMISMATCH" in (a or "") or (a or "").startswith(("panic", "abort", "timeout")):
+            line = [x for x in ml if x.startswith(lid + "\t")][0]
+            ctx.violations.append({"case": line, "expected": "ok", "actual": (a or "")[:400], "model": None,
+                                   "what": "XlsbCellsReader: next_cell after next_formula does not continue with the cells behind that formula cell"})
     got = ctx.run_impl(hl)
     for l, h in zip(sub, hl):
         lid = l.split("\t", 1)[0]
